@@ -182,4 +182,7 @@ def check(run):
                 run.check(off == ({'start': 1}, 0), 'R14', 'range-offset', H + '::register_content', lf.loc(b), 'the generator is not asked for the range starting at `start`', 'generator offset is start')
     if not found:
         run.broke('register_content: send_response/gen pair not found')
+    run.clause('the next client is accepted: re-arming the accept re-examines connections that were queued while the server was busy (shared with C06/C07)')
+    import p06
+    p06.accept_queue_rules(run)
     run.floor('R4', 4)
